@@ -8,3 +8,4 @@ import Tcell.Props.C20
 import Tcell.Props.C16
 import Tcell.Props.C07
 import Tcell.Props.C15
+import Tcell.Props.C14
